@@ -27,7 +27,11 @@ MUTEX_TABLE_OBLIGATIONS = ["c03_mutex_orders_current", "c03_mutex_protocol_race_
 MUTEX_SCENARIOS = ["mutex", "mutex_window"]
 # signal<T> as a whole on the happens-before machine (SignalClock.lean): obligations over the regenerated tables (Props/C03b.lean)
 SIGNAL_TABLE_OBLIGATIONS = ["c03_signal_orders_current", "c03_signal_protocol_race_free", "c03_signal_no_own_atomics",
-                            "c03_signal_subscribe_accesses", "c03_signal_walk_accesses"]
+                            "c03_signal_subscribe_accesses", "c03_signal_walk_accesses",
+                            # position facts about signal.h itself (rows of the functions in extract.SIGNAL_FUNCS / classes local to connect)
+                            "c03_signal_collector_writes_before_notify", "c03_signal_dtor_clears_before_notify",
+                            "c03_signal_notify_is_resume_chain", "c03_signal_emitter_sets_up_before_subscribe",
+                            "c03_signal_await_resume_reads_cur_val", "c03_signal_rows_present"]
 SIGNAL_SCENARIOS = ["signal"]
 
 
